@@ -60,17 +60,22 @@ def wrap_bounds(h):
                 tx=h.call(h.fn('TARGET', ret='real'), x), **env)
 
 
-@contract('C01/wrap_penalty', ['C01', 'C03'], T + 'wrap_penalty.function_wrapper')
+@contract('C01/wrap_penalty', ['C01', 'C03', 'C07'], T + 'wrap_penalty.function_wrapper')
 def wrap_penalty(h):
-    # requires: the user's cost does not modify its argument (C03 speaks about in-place *constraints* only)
-    cost = h.fn('COST', ret='xreal', log='evals')
-    pen = h.fn('PEN', ret='xreal', log='pen_evals')
+    # the solver's own vector (for DE the very list handed to the map) is protected even from a user cost / penalty that
+    # writes to its argument -- otherwise the trajectory would depend on whether the map shares memory (C07); the value
+    # clauses below are for costs that leave their argument alone (C03 speaks about in-place *constraints* only)
+    mut = h.choice('cost_modifies_its_argument', [False, True])
+    cost = h.fn('COST', ret='xreal', log='evals', mutates=mut)
+    pen = h.fn('PEN', ret='xreal', log='pen_evals', mutates=mut)
     fw = h.call(h.get(T + 'wrap_penalty'), cost, pen)
     x = h.list_real('x')
     x0 = h.snapshot(x)
     r = h.call(fw, x)
     evals, pevals = h.log('evals'), h.log('pen_evals')
     h.check('argument-unchanged', 'seq_eq(x, x0)', x=x, x0=x0)
+    if mut:
+        return
     h.check('cost-and-penalty-at-x', 'len(evals) == 1 and seq_eq(evals[0][0], x0) and len(pevals) == 1 and seq_eq(pevals[0][0], x0)',
             evals=evals, pevals=pevals, x0=x0)
     if h.is_sym():
